@@ -16,6 +16,7 @@ from ..core import check, Violation, Rejected
 from ..gen import par
 
 ID = "C02"
+IMPORTS = ['rig.place_and_route', 'rig.place_and_route.place.sa', 'rig.place_and_route.place.rand']
 LEVEL = "exploration"
 TECHNIQUE = ("runtime post-condition monitor (independent feasibility "
              "oracle) + invariant hook at kernel quiescent points + "
